@@ -73,5 +73,19 @@ check("C11",
       technique="exhaustive enumeration of request sequences up to a depth bound on the implementation against the documented normal form",
       engine="explore", design="3/C11")
 
+check("C13",
+      passes=[dict(name="C13", src=["harness/C13.cpp"], variant="fast", shards={"quick": 1, "thorough": 1})],
+      rule="finite configuration space closed completely in both tiers: 26 built-in type accessors + 5 symbolic constants + "
+           "2 linkages, on 3 Lexicons alive at once (one after 100 unrelated constructions) and 1 created after they were "
+           "destroyed; all 325+10 unordered pairs distinct; documented spelling; self-denoting; type typename; natural "
+           "transfer; typing of the constants; every spelling->node route (identifier->as-type through both get_identifier "
+           "overloads, word/String->linkage, identifier->label, expression->decltype) returns the constant itself; same "
+           "addresses from every Lexicon. distinct_nontrivial = number of constants examined.",
+      text="Complete enumeration of a finite configuration space on the real Lexicon against a hand-written table of "
+           "documented spellings.",
+      note="The accessor->spelling table is transcribed from the comments of ipr::Lexicon (ushort read as 'unsigned short').",
+      technique="complete enumeration of a finite configuration space on the implementation against a documented table",
+      engine="explore", design="3/C13")
+
 # Properties not claimed (with the reason that goes to MANIFEST.not_applicable).
 NOT_CLAIMED = {}
